@@ -73,7 +73,7 @@ func (c *Ctx) ruleR03h(rule string) {
 }
 
 func (c *Ctx) ruleR03a(rule string) {
-	c.R.Rule(rule, "wrapped call dominated by the not-found edge of ResultCache.Get; Save(idx,pos,result) lies on every path from the wrapped call to a return", 2)
+	c.R.Rule(rule, "wrapped call dominated by the not-found edge of ResultCache.Get; Save(idx,pos,result) lies on every path from the wrapped call to a return; inside ResultCache.Save the map store of the result parameter (direct or through a helper) dominates every return", 3)
 	n := 0
 	for _, m := range c.memos() {
 		if !c.S.Parser[m.Fn] {
@@ -127,6 +127,72 @@ func (c *Ctx) ruleR03a(rule string) {
 	if n == 0 {
 		c.R.Fail("coverage-lost", rule, "memoizing parsers", "-", "-", "no memoizing parser found")
 	}
+	// ... and Save itself records the result it is handed on every path to a return: a Save that declines some results
+	// (nil node and nil error is what Any/Choice return for a failure at their own position) lets the wrapped parser run again
+	var save *ssa.Function
+	for _, fn := range c.P.LibFuncs {
+		if fn.Synthetic == "" && isResultCacheMethod(fn, "Save") {
+			save = fn
+		}
+	}
+	if save == nil || len(save.Params) < 4 {
+		c.R.Fail("coverage-lost", rule, "ResultCache.Save", "-", "-", "ResultCache.Save(parserIndex, pos, result) not found")
+		return
+	}
+	found, bad := c.storesParamOnAllPaths(save, save.Params[3], 0)
+	switch {
+	case !found:
+		c.R.Undecided(rule, "ResultCache.Save stores its result", c.name(save), c.P.Pos(save.Pos()), "no map store of the result parameter found in ResultCache.Save or the helpers it hands the result to")
+	case bad != nil:
+		c.R.Violation(rule, "ResultCache.Save return without store", c.name(save), c.P.InstrPos(bad), "a path through ResultCache.Save reaches this return without storing the result in the cache: the memoizing parser believes the result is cached, and the wrapped parser runs again at the same position")
+	default:
+		c.R.Hold(rule, "ResultCache.Save stores its result", "the map store of the result parameter dominates every return")
+	}
+}
+
+// storesParamOnAllPaths: is there an instruction in fn that stores parameter p into a map (directly, or by handing it to a
+// library helper that does so on all of its paths) and that dominates every return of fn? Returns whether such a store
+// exists at all and, if it does not dominate every return, one return it does not cover.
+func (c *Ctx) storesParamOnAllPaths(fn *ssa.Function, p *ssa.Parameter, depth int) (found bool, bad ssa.Instruction) {
+	var stores []ssa.Instruction
+	for _, b := range fn.Blocks {
+		for _, in := range b.Instrs {
+			switch x := in.(type) {
+			case *ssa.MapUpdate:
+				if ssax.Strip(x.Value) == ssa.Value(p) {
+					stores = append(stores, in)
+				}
+			case *ssa.Call:
+				sc := x.Call.StaticCallee()
+				if sc == nil || depth >= 2 || !c.P.InLib(sc) || len(sc.Blocks) == 0 {
+					continue
+				}
+				for i, a := range x.Call.Args {
+					if ssax.Strip(a) == ssa.Value(p) && i < len(sc.Params) {
+						if f, b := c.storesParamOnAllPaths(sc, sc.Params[i], depth+1); f && b == nil {
+							stores = append(stores, in)
+						}
+					}
+				}
+			}
+		}
+	}
+	if len(stores) == 0 {
+		return false, nil
+	}
+	for _, r := range ssax.Returns(fn) {
+		covered := false
+		for _, st := range stores {
+			sb := st.Block()
+			if sb == r.Block() && ssax.Before(st, r) || sb != r.Block() && sb.Dominates(r.Block()) {
+				covered = true
+			}
+		}
+		if !covered {
+			return true, r
+		}
+	}
+	return true, nil
 }
 
 func (c *Ctx) ruleR03c(rule string) {
